@@ -80,6 +80,7 @@ def run(tier, seed):
     jobs = [(t, False, fg) for (v, mt, st, t, ch) in msgs for fg in (True, False)]
     meta = [(v, mt, st, ch) for (v, mt, st, t, ch) in msgs for fg in (True, False)]
     a = vlib.pmap(impl.msg, jobs)
+    chk.again('parse_message(text, TOLERANT, find_groups).to_er7()', impl.msg, jobs, a, 300)
     mo = vlib.run_driver(['MSG T T 2.5 %d %s' % (1 if j[2] else 0, vlib.hexs(j[0])) for j in jobs])
     chk.correspond('parse_message(text, TOLERANT, find_groups).to_er7() + tree vs Hl7.Msg.parseMessage/encMessage', jobs, a, mo,
                    show=lambda j: {'text': j[0], 'find_groups': j[2]})
